@@ -182,6 +182,9 @@ def r10_1(ctx):
 def r10_2(ctx):
     f = ctx.fn('yr_execute_code', 'libyara/exec.c')
     bad = []
+    from ..vmroles import vm_roles
+    OPC = vm_roles(ctx.prog, f).opcode
+    ctx.require(OPC is not None, 'R10.2: the opcode variable of yr_execute_code is not identified')
 
     def step(n, facts):
         if n['k'] == 'call' and n.get('callee') == 'yr_modules_unload_all':
@@ -189,7 +192,7 @@ def r10_2(ctx):
         # entering the dispatch: opcode = *ip
         if n['k'] == 'bin' and n['op'] == '=':
             l = f.kid(n, 0)
-            if l is not None and l['k'] == 'ref' and l['name'] == 'opcode':
+            if l is not None and l['k'] == 'ref' and l['name'] == OPC:
                 return facts | {'dispatching'}
         if n['k'] == 'ret':
             if 'dispatching' in facts and 'unloaded' not in facts:
@@ -217,7 +220,7 @@ def r10_2(ctx):
                 return facts | {'done'}
             if n['k'] == 'bin' and n['op'] == '=':
                 l = f.kid(n, 0)
-                if l is not None and l['k'] == 'ref' and l['name'] == 'opcode':
+                if l is not None and l['k'] == 'ref' and l['name'] == OPC:
                     return facts | {'dispatching'}
             if n['k'] == 'ret':
                 if 'dispatching' in facts and 'done' not in facts:
@@ -236,6 +239,16 @@ def r10_3(ctx):
         f = ctx.fn(fname, 'libyara/re.c')
         bad = []
         ct = paths.CondTracker(f)
+        # the fiber list: what is handed to the kill-all function
+        LIST = None
+        for c in f.calls():
+            if c.get('callee') == killall:
+                a = cu.strip_casts(f, f.call_args(c)[0])
+                if a is not None and a['k'] == 'un' and a['op'] == '&':
+                    a = cu.strip_casts(f, f.kid(a, 0))
+                if a is not None and a['k'] == 'ref':
+                    LIST = a['name']
+        ctx.require(LIST is not None, 'R10.3: the fiber list of %s is not identified' % fname)
 
         def step(n, facts):
             if n['k'] == 'call' and n.get('callee') == create:
@@ -260,7 +273,7 @@ def r10_3(ctx):
                 if imp[0] == 'ne' and imp[2] == 0:
                     return facts - {'pending'}
             # while (fibers.head != NULL): leaving the loop means no fiber is live
-            if imp is not None and imp[1].endswith('fibers.head') and imp[2] == 0 and imp[0] == 'eq':
+            if imp is not None and imp[1].endswith(LIST + '.head') and imp[2] == 0 and imp[0] == 'eq':
                 return facts - {'live'}
             return facts
         try:
@@ -302,6 +315,14 @@ def r10_3(ctx):
                    'a recycled fiber keeps field %s from its previous use' % fld['name'])
 
 
+def _allocating_one_liner(f, call):
+    inl = _inline(f, call)
+    if inl is None:
+        return False
+    body = cu.strip_casts(inl[0], inl[1])
+    return body is not None and body['k'] == 'call' and body.get('callee') in ('yr_malloc', 'yr_calloc', 'yr_strdup')
+
+
 def r10_4(ctx):
     prog = ctx.prog
     for create, destroy, rec in (('yr_scanner_create', 'yr_scanner_destroy', CTX),
@@ -314,7 +335,8 @@ def r10_4(ctx):
                 l = cu.strip_casts(c, c.kid(n, 0))
                 r = cu.strip_casts(c, c.kid(n, 1))
                 if l is not None and l['k'] == 'member' and r is not None and r['k'] == 'call' \
-                        and r.get('callee') in ('yr_malloc', 'yr_calloc', 'yr_strdup'):
+                        and (r.get('callee') in ('yr_malloc', 'yr_calloc', 'yr_strdup') or
+                             _allocating_one_liner(c, r)):
                     allocated[l['fld']] = n
             if n['k'] == 'call':
                 for a in c.call_args(n):
@@ -325,13 +347,15 @@ def r10_4(ctx):
                                 n.get('callee', '').endswith('_create'):
                             allocated[m['fld']] = n
         released = set()
-        for n in d.calls():
-            for a in d.call_args(n):
-                a = cu.strip_casts(d, a)
-                if a is not None and a['k'] == 'un' and a['op'] == '&':
-                    a = cu.strip_casts(d, d.kid(a, 0))
-                if a is not None and a['k'] == 'member':
-                    released.add(a['fld'])
+        # the destroy function and the static helpers it is built from
+        for dd in cu.family(prog, d):
+            for n in dd.calls():
+                for a in dd.call_args(n):
+                    a = cu.strip_casts(dd, a)
+                    if a is not None and a['k'] == 'un' and a['op'] == '&':
+                        a = cu.strip_casts(dd, dd.kid(a, 0))
+                    if a is not None and a['k'] == 'member':
+                        released.add(a['fld'])
         ctx.require(len(allocated) >= 3 or ctx.fixture, '%s: allocations not recognised' % create)
         for fld, n in sorted(allocated.items()):
             ok = fld in released
@@ -341,19 +365,77 @@ def r10_4(ctx):
                        create, fld, destroy))
 
 
-def _factors(f, e):
+def _pure_return(h):
+    """the expression a function returns when its body is a single `return E;`"""
+    rets = [n for n in h.all_nodes() if n['k'] == 'ret']
+    stmts = [n for n in h.all_nodes() if n['k'] in ('if', 'for', 'while', 'do', 'switch', 'decl', 'goto')]
+    if len(rets) == 1 and not stmts and rets[0].get('c'):
+        return h.kid(rets[0], 0)
+    return None
+
+
+def _inline(f, call):
+    """(callee function, {param name: factor list of the argument}) for a call of a
+    static one-expression helper of the same unit"""
+    h = f.tu.functions.get(call.get('callee') or '')
+    if h is None or not getattr(h, 'static', False):
+        return None
+    e = _pure_return(h)
+    if e is None:
+        return None
+    args = f.call_args(call)
+    if len(args) != len(h.params):
+        return None
+    return h, e, {p_['name']: _factors(f, a) for p_, a in zip(h.params, args)}
+
+
+def _factors(f, e, subst=None):
     """multiset of factors of a product, cast-free, with the rule-set root
     (`scanner->rules`, `new_scanner->rules`, `rules`, `context->rules`)
-    normalised"""
+    normalised.  A call of a static helper that merely returns an expression of its
+    parameters stands for that expression (`bitmask_bytes(n)`)."""
     import re
     from .C14 import canon, rcanon
     e = cu.strip_casts(f, e)
+    if e is not None and e['k'] == 'call':
+        inl = _inline(f, e)
+        if inl is not None:
+            h, body, sub = inl
+            return _factors(h, body, sub)
+    if subst and e is not None and e['k'] == 'ref' and e['name'] in subst:
+        return list(subst[e['name']])
+    if e is not None and e['k'] == 'ref' and e.get('dk') == 'local' and cu.stable_def_of(f, e) is None:
+        # a local defined once, by a call of a one-expression helper
+        defs = []
+        for n_ in f.all_nodes():
+            if n_['k'] == 'decl' and n_.get('name') == e['name'] and n_.get('c'):
+                defs.append(f.kid(n_, 0))
+            elif n_['k'] == 'bin' and n_['op'].endswith('=') and n_['op'] not in ('==', '!=', '<=', '>='):
+                l_ = cu.strip_casts(f, f.kid(n_, 0))
+                if l_ is not None and l_['k'] == 'ref' and l_['name'] == e['name']:
+                    defs.append(None)
+        if len(defs) == 1 and defs[0] is not None:
+            d0 = cu.strip_casts(f, defs[0])
+            if d0 is not None and d0['k'] == 'call' and _inline(f, d0) is not None:
+                return _factors(f, d0, subst)
+    if subst and e is not None and not (e['k'] == 'bin' and e['op'] == '*'):
+        # a non-product expression mentioning a parameter: render with the argument's text
+        s0 = rcanon(f, e)
+        for k_, v_ in subst.items():
+            s0 = re.sub(r'\b%s\b' % re.escape(k_), ' * '.join(v_) if len(v_) == 1 else '(%s)' % ' * '.join(v_), s0)
+        s0 = re.sub(r'\b(\w+->)?rules->', 'RULES.', s0)
+        return [s0]
     # a local that merely names the size expression stands for that expression
     if e is not None and cu.stable_def_of(f, e) is not None:
-        return _factors(f, cu.stable_def_of(f, e))
+        return _factors(f, cu.stable_def_of(f, e), subst)
     if e is not None and e['k'] == 'bin' and e['op'] == '*':
-        return _factors(f, f.kid(e, 0)) + _factors(f, f.kid(e, 1))
+        return _factors(f, f.kid(e, 0), subst) + _factors(f, f.kid(e, 1), subst)
     s_ = rcanon(f, e)
+    # whatever designates the rule set (any expression of type YR_RULES*) is one root
+    for x in (f.walk(e) if e is not None else ()):
+        if (x.get('t') or '').replace('const ', '').replace('struct ', '') in ('YR_RULES *', '_YR_RULES *') \
+                and x['k'] in ('ref', 'member'):
+            s_ = s_.replace(rcanon(f, x) + '->', 'RULES.')
     s_ = re.sub(r'\b(\w+->)?rules->', 'RULES.', s_)
     return [s_]
 
@@ -380,7 +462,15 @@ def r10_5(ctx):
             elif r.get('callee') == 'yr_malloc':
                 ext = sorted(_factors(f, f.call_args(r)[0]))
             else:
-                continue
+                # an allocating one-liner: `return yr_calloc(A, B);`
+                inl = _inline(f, r)
+                body = cu.strip_casts(inl[0], inl[1]) if inl is not None else None
+                if body is None or body['k'] != 'call' or body.get('callee') not in ('yr_calloc', 'yr_malloc'):
+                    continue
+                h, _, sub = inl
+                ba = h.call_args(body)
+                ext = sorted(sum((_factors(h, x, sub) for x in
+                                  (ba[:2] if body['callee'] == 'yr_calloc' else ba[:1])), []))
             extents[l['fld']] = (ext, f, n)
     ctx.require(len(extents) >= 5 or ctx.fixture, 'only %d sized scanner allocations found' % len(extents))
     n_sites = 0
